@@ -4,7 +4,8 @@
 (*                                                                                                 *)
 (* A configuration of kind k is built field by field; a field may leave its base class only while  *)
 (* fewer than MaxDev fields deviate.  The complete configurations (gi > NFields) are exactly        *)
-(* {c \in Grammar(k) : Dev(k, c) <= MaxDev} - GenSound states it - and each is exported through     *)
+(* {c \in Grammar(k) : Dev(k, c) <= MaxDev /\ PadSound(k, c) /\ PadPure(k, c)} - GenSound states it -   *)
+(* and each is exported through                                                                    *)
 (* `out` (JSON).  With `-dump` the enumeration is exhaustive (MaxDev = number of fields: the whole  *)
 (* grammar); with `-simulate` every behaviour is one random member of the grammar (a random walk   *)
 (* over the field choices, seeded by VERIF_SEED; "Keep" halves the probability of leaving the base *)
@@ -35,10 +36,14 @@ GInit == /\ gk \in Kinds
 \* (ConfigSpaceGrammar!Dev).
 IsPad   == Fields(gk)[gi].n = "pad"
 PFmt(j) == PadFmtOf(Fields(gk)[gi].d[j])
-Eff(j)  == PFmt(j) \in AlwaysFmt(gk) \/ \E i \in 1..Len(gc) : <<PFmt(j), Fields(gk)[i].n, gc[i]>> \in Carriers(gk)
-Free(j) == \E i \in 1..Len(gc) : gc[i] # Fields(gk)[i].d[1] /\ <<PFmt(j), Fields(gk)[i].n, gc[i]>> \in Carriers(gk)
-Cost(j) == IF j = 1 THEN 0 ELSE IF IsPad /\ Free(j) THEN 0 ELSE 1
-Allowed(j) == IF j = 1 THEN TRUE ELSE gd + Cost(j) <= MaxDev /\ (IF IsPad THEN Eff(j) ELSE TRUE)
+CarAt(j, i) == Carriers(gk, PFmt(j), Fields(gk)[i].n, gc[i])
+Eff(j)  == PFmt(j) \in AlwaysFmt(gk) \/ \E i \in 1..Len(gc) : CarAt(j, i)
+Free(j) == \E i \in 1..Len(gc) : gc[i] # Fields(gk)[i].d[1] /\ CarAt(j, i)
+Pure(j) == \A i \in 1..Len(gc) : gc[i] = Fields(gk)[i].d[1] \/ CarAt(j, i)
+Cost(j) == IF j = 1 THEN 0 ELSE IF IsPad THEN (IF Free(j) THEN 0 ELSE 1) ELSE 1
+Allowed(j) == IF j = 1 THEN TRUE
+              ELSE IF IsPad THEN (IF Eff(j) /\ Pure(j) /\ gd + Cost(j) <= MaxDev THEN TRUE ELSE FALSE)
+              ELSE gd < MaxDev
 
 Pick(j) ==
     /\ gc' = Append(gc, Fields(gk)[gi].d[j])
@@ -73,6 +78,6 @@ GSpec == GInit /\ [][GNext]_gvars
 GenSound == gi > NFields(gk) =>
                /\ InGrammar(gk, AsCfg(gk, gc))
                /\ Dev(gk, AsCfg(gk, gc)) = gd
-               /\ PadSound(gk, AsCfg(gk, gc))
+               /\ PadSound(gk, AsCfg(gk, gc)) /\ PadPure(gk, AsCfg(gk, gc))
                /\ gd <= MaxDev
 =============================================================================
